@@ -3,6 +3,7 @@ package harness
 import (
 	"context"
 	"fmt"
+	"strings"
 	"sync"
 	"testing"
 	"time"
@@ -178,6 +179,7 @@ type C20RootsCase struct {
 	Mode    Mode `json:"mode"` // ModeSJ, ModeSS or ModeLegacy
 	Clients int  `json:"clients"`
 	Calls   int  `json:"calls"`
+	Mutate  bool `json:"mutate,omitempty"` // the application adds and removes a root on each provider while roots/list requests are answered
 }
 
 func execC20Roots(c C20RootsCase) *Failure {
@@ -204,15 +206,40 @@ func execC20Roots(c C20RootsCase) *Failure {
 		return mcp.NewTextResult(out), nil
 	})
 	var clients []*libClient
+	var providers []*mcp.DefaultRootsProvider
 	for i := 0; i < c.Clients; i++ {
 		lc, err := w.ConnectLib(false, nil)
 		if err != nil {
 			return Failf("C20/connect", "%v", err)
 		}
 		defer lc.Close()
-		lc.C.SetRootsProvider(mcp.NewDefaultRootsProvider(mcp.Root{URI: fmt.Sprintf("file:///client-%d", i), Name: "r"}))
+		prov := mcp.NewDefaultRootsProvider(mcp.Root{URI: fmt.Sprintf("file:///client-%d", i), Name: "r"})
+		lc.C.SetRootsProvider(prov)
+		providers = append(providers, prov)
 		clients = append(clients, lc)
 	}
+	stopMut := make(chan struct{})
+	var mutWG sync.WaitGroup
+	if c.Mutate {
+		for _, prov := range providers {
+			mutWG.Add(1)
+			go func(prov *mcp.DefaultRootsProvider) {
+				defer mutWG.Done()
+				for k := 0; ; k++ {
+					select {
+					case <-stopMut:
+						return
+					default:
+					}
+					prov.AddRoot(fmt.Sprintf("/m%d", k), "m")
+					_ = prov.GetRoots()
+					prov.RemoveRoot(fmt.Sprintf("/m%d", k))
+					time.Sleep(20 * time.Microsecond)
+				}
+			}(prov)
+		}
+	}
+	defer func() { close(stopMut); mutWG.Wait() }()
 	if w.Srv != nil {
 		waitRegistered(w.Srv, c.Clients)
 	}
@@ -235,7 +262,14 @@ func execC20Roots(c C20RootsCase) *Failure {
 				} else if len(res.Content) == 1 {
 					got = res.Content[0].(mcp.TextContent).Text
 				}
-				if got != fmt.Sprintf("roots:file:///client-%d,", i) {
+				base := fmt.Sprintf("roots:file:///client-%d,", i)
+				okAnswer := got == base
+				if c.Mutate && strings.HasPrefix(got, base) {
+					// at most the one root being added and removed may follow, and never the base root again
+					rest := strings.TrimPrefix(got, base)
+					okAnswer = rest == "" || (strings.Count(rest, ",") == 1 && strings.Contains(rest, "/m"))
+				}
+				if !okAnswer {
 					mu.Lock()
 					bad = append(bad, fmt.Sprintf("client %d call %d: %s", i, k, got))
 					mu.Unlock()
@@ -255,7 +289,7 @@ func execC20Roots(c C20RootsCase) *Failure {
 func TestC20Roots(t *testing.T) {
 	RunProp(t, Prop[C20RootsCase]{ID: "C20",
 		Gen: func(t *rapid.T) C20RootsCase {
-			return C20RootsCase{Mode: rapid.SampledFrom([]Mode{ModeSJ, ModeSS, ModeLegacy}).Draw(t, "mode"), Clients: rapid.IntRange(2, 5).Draw(t, "clients"), Calls: rapid.IntRange(1, 8).Draw(t, "calls")}
+			return C20RootsCase{Mode: rapid.SampledFrom([]Mode{ModeSJ, ModeSS, ModeLegacy}).Draw(t, "mode"), Clients: rapid.IntRange(2, 5).Draw(t, "clients"), Calls: rapid.IntRange(1, 8).Draw(t, "calls"), Mutate: rapid.Bool().Draw(t, "mutate")}
 		},
 		Exec: execC20Roots,
 		NT:   func(c C20RootsCase) (bool, []string) { return c.Clients >= 2, []string{"mode=" + c.Mode.String()} }})
